@@ -18,6 +18,8 @@ import TrVerif.Props.C12
 import TrVerif.Props.C12Full
 import TrVerif.Props.C12FullRev
 import TrVerif.Props.C12FullRoute
+import TrVerif.Props.C12FullRouteDep
+import TrVerif.Props.C12FullAlt
 namespace Tr
 
 def nvDs : Dataset :=
